@@ -85,6 +85,9 @@ func TestWriteWitnesses(t *testing.T) {
 		t.Skip()
 	}
 	for _, kf := range findings {
+		if only := os.Getenv("VERIF_WRITE_WITNESSES"); only != "1" && only != kf.ID {
+			continue // VERIF_WRITE_WITNESSES=<KF id> writes one witness only
+		}
 		c, ok := witnesses()[kf.ID]
 		if !ok {
 			t.Errorf("no witness for %s", kf.ID)
